@@ -179,7 +179,7 @@ theorem C16_status_cases (method : Bytes) (isH2 : Bool) (ct accept : Option Byte
       simp [this, hm, toExpect]
 
 /-- The content-type constants of the model are the protocol's (a table of five constants; the
-statements about header MAPS are `C16_coerce_request_headers` / `C16_coerce_response_headers`). -/
+statements about header MAPS are `C16_coerce_request_headers` / `C16_coerce_response_headers`). (Transcription lemma: it holds by unfolding the model's definition, so it pins the model's shape for the correspondence run — its assurance about tonic is the tie, not this proof.) -/
 theorem C16_content_types :
     GRPC_CONTENT_TYPE = Spec.GrpcWeb.grpcContentType ∧
     ∀ a : Enc, toContentType a = Spec.GrpcWeb.responseContentType (a == Enc.base64) := by
